@@ -18,3 +18,16 @@ Theorem C19_redefinition_hides : forall pre e post u,
   last_def (pre ++ e :: post) u = Some e.
 Proof. exact redefinition_hides. Qed.
 Print Assumptions C19_redefinition_hides.
+
+(* Second tie (DESIGN 3.5, docs/gotrans.md): Check / HasPerm / HasAnyPerm / AA as translated from
+   auth/credential_store.go on this run are the hand model's functions (rep = the Go-side store of a
+   model store; Some/None = non-nil / nil *CredentialsStore). *)
+From RQ Require Import Gen.Auth Proofs.C19_Gen.
+Theorem C19_source_derived_eq :
+  (forall c u p, CredentialsStore_Check (rep c) u p = check c u p) /\
+  (forall c u p, CredentialsStore_HasPerm (rep c) u p = has_perm c u p) /\
+  (forall c u ps, CredentialsStore_HasAnyPerm (rep c) u ps = has_any_perm c u ps) /\
+  (forall c u p perm, CredentialsStore_AA (Some (rep c)) u p perm = aa c u p perm) /\
+  (forall u p perm, CredentialsStore_AA None u p perm = true).
+Proof. exact gen_auth_eq. Qed.
+Print Assumptions C19_source_derived_eq.
